@@ -867,6 +867,16 @@ def TWOSRC(K=0, horizon=5, eps=0, delay=0, ops=None):
     return spec(f'TWOSRC[eps{eps},d{delay},K{K}]', devs, horizon, ops, K, **kw)
 
 
+def FLOATNOISE(K=0, horizon=0.75, ops=None):
+    '''Event times that differ only by float rounding: one source with cycle 0.3, one with cycle 0.1 whose third part is
+    due at 0.1+0.1+0.1 = 0.30000000000000004; both feed a resource-using machine.  Times that are not EQUAL are not the
+    same instant: the earlier event runs first whatever the priorities.'''
+    devs = [src('S1', 0.3), src('S2', 0.1), buf('B', ['S1', 'S2'], 6), proc('M', ['B'], 0, resources={'r': 1}), sink('K', ['M'])]
+    if ops is None:
+        ops = [('addres', 'r', -1), ('addres', 'r', 1)]
+    return spec(f'FLOATNOISE[K{K}]', devs, horizon, ops, K, pools={'r': 1}, positions=['pre', 'end'])
+
+
 def DELAY01_LONG(K=0, horizon=6):
     '''Non-dyadic minimum delay over several time units: release times that round the wrong way must not make the
     buffer loop inside one instant.'''
